@@ -301,6 +301,9 @@ func c14Run(c *fw.Ctx) {
 		interfRun(c, "C14") // statement-level interleavings of operations on disjoint objects (subprocess)
 	}
 	c14Histories(c)
+	if c.Shard == 0 {
+		c14Served(c)
+	}
 	tmpls := c14Templates()
 	idAlpha := []uint64{0, 1, 2, 3, 7, math.MaxUint64}
 	idx := 0
@@ -636,7 +639,7 @@ func init() {
 			}
 		},
 		Budget:      func(string) time.Duration { return 15 * time.Minute },
-		Assumptions: []string{"constructors that panic are C15's business and are skipped here", "the attribute database is json.Marshal of the container, which is what the /accessories handler writes"},
+		Assumptions: []string{"constructors that panic are C15's business and are skipped here", "the attribute database is json.Marshal of the container, which is what the /accessories handler writes (bound to the served database by four fetches through a real transport: same ids every time, the ids the objects hold)"},
 	})
 }
 
@@ -806,4 +809,100 @@ func c14History1(c *fw.Ctx, hist []string, leaf bool) bool {
 		}
 		return prune
 	}
+}
+
+// c14Served binds the assumption "the attribute database is the encoded container" to the served one: a verified
+// controller fetches /accessories of a real transport (every characteristic constructor's object on a handful of
+// accessories) four times, with reads and a write in between; every answer lists, in the same order, exactly the
+// accessory and instance ids the objects hold — before the first and after the last fetch.
+func c14Served(c *fw.Ctx) {
+	s, err := c09Build(c, 0)
+	if err != nil {
+		c.Infra("build: " + err.Error())
+		return
+	}
+	defer s.Close()
+	ids := func(j []byte) (string, error) {
+		var db struct {
+			Accessories []struct {
+				Aid      uint64 `json:"aid"`
+				Services []struct {
+					Iid             uint64 `json:"iid"`
+					Characteristics []struct {
+						Iid uint64 `json:"iid"`
+					} `json:"characteristics"`
+				} `json:"services"`
+			} `json:"accessories"`
+		}
+		if err := json.Unmarshal(j, &db); err != nil {
+			return "", err
+		}
+		var b strings.Builder
+		for _, a := range db.Accessories {
+			fmt.Fprintf(&b, "a%d:", a.Aid)
+			for _, sv := range a.Services {
+				fmt.Fprintf(&b, "s%d(", sv.Iid)
+				for _, ch := range sv.Characteristics {
+					fmt.Fprintf(&b, "%d,", ch.Iid)
+				}
+				b.WriteString(")")
+			}
+			b.WriteString(";")
+		}
+		return b.String(), nil
+	}
+	held := func() string {
+		seen := map[*accessory.Accessory]bool{}
+		var b strings.Builder
+		for _, cc := range s.chars {
+			if seen[cc.Acc] {
+				continue
+			}
+			seen[cc.Acc] = true
+			fmt.Fprintf(&b, "a%d:", cc.Acc.ID)
+			for _, sv := range cc.Acc.GetServices() {
+				fmt.Fprintf(&b, "s%d(", sv.ID)
+				for _, ch := range sv.GetCharacteristics() {
+					fmt.Fprintf(&b, "%d,", ch.ID)
+				}
+				b.WriteString(")")
+			}
+			b.WriteString(";")
+		}
+		return b.String()
+	}
+	before := held()
+	cas := c14Case{Tmpls: []string{"served: /accessories fetched four times"}}
+	first := ""
+	for n := 1; n <= 4; n++ {
+		c.Eval(1)
+		m, _, err := s.k.Do("GET", "/accessories", "", nil)
+		if err != nil || m.Status != 200 {
+			c.Report("served/fetch-failed", fmt.Sprintf("GET /accessories #%d: %v %v", n, m, err), cas)
+			return
+		}
+		got, perr := ids(m.Body)
+		if perr != nil {
+			c.Report("served/not-json", fmt.Sprintf("GET /accessories #%d: %v", n, perr), cas)
+			return
+		}
+		if n == 1 {
+			first = got
+		} else if got != first {
+			c.Report("served/ids-change-between-fetches", fmt.Sprintf("fetch #%d of /accessories lists other instance ids than fetch #1 (nothing was added or removed in between): %s … instead of %s …", n, trunc([]byte(got), 60), trunc([]byte(first), 60)), cas)
+			return
+		}
+		if !strings.Contains(got, before) { // (the served database may hold more accessories than carry characteristics of the catalog: the bridge itself)
+			c.Report("served/ids-differ-from-objects", fmt.Sprintf("fetch #%d of /accessories does not list the ids the objects held before the first fetch", n), cas)
+			return
+		}
+		if now := held(); now != before {
+			c.Report("served/fetch-renumbers-objects", fmt.Sprintf("after fetch #%d of /accessories the objects hold other ids than before: %s … instead of %s …", n, trunc([]byte(now), 60), trunc([]byte(before), 60)), cas)
+			return
+		}
+		// traffic between the fetches
+		cc := s.chars[n%len(s.chars)]
+		s.k.Do("GET", fmt.Sprintf("/characteristics?id=%d.%d", cc.Acc.ID, cc.Ch.ID), "", nil)
+	}
+	c.Class("served-four-times")
 }
